@@ -107,7 +107,7 @@ def lit(b):
         b = b.encode("utf-8")
     if all(32 <= c <= 126 and c != 34 for c in b):
         return '(s "%s")' % b.decode("ascii")
-    return "(bs [%s])" % ";".join(str(c) for c in b)
+    return "(bs [%s]%%N)" % ";".join(str(c) for c in b)
 
 
 def opt(x, f=lit):
